@@ -586,6 +586,25 @@ func streamResolve(g *G) { // C02: add-only tables, several registration orders
 			}
 			rid++
 		}
+		if g.chance(0.15) {
+			// a strict URL() is a read: the answers to the same requests before and after it are the same (rules whose first
+			// match and longest match differ: a prefix alternation)
+			g.routerLine(rid, routerOpt{name: "r"})
+			pats := []string{"/api/{v:v1|v10}", "/api/{rest}", "/t/{tag:a|ab}-{n:\\d+}", "/t/{all}"}
+			for i, p := range pats {
+				g.emit("handle %d %s %d %s %s", rid, encB(p), i+1, "%-", encL([]string{"GET"}))
+			}
+			paths := []string{"/api/v10", "/api/v1", "/api/v100", "/t/ab-5", "/t/a-5", "/t/abb-5"}
+			for round := 0; round < 2; round++ {
+				for _, path := range paths {
+					g.serveLine("serve", rid, "GET", path, "", nil)
+					g.emit("spec-adm %d %s", rid, encB(path))
+				}
+				g.emit("url %d 1 %s %s", rid, encB(pats[0]), encKVs([]kv{{"v", "v10"}}))
+				g.emit("url %d 1 %s %s", rid, encB(pats[2]), encKVs([]kv{{"tag", "ab"}, {"n", "5"}}))
+			}
+			rid++
+		}
 		useIc := g.chance(0.5)
 		n := 2 + g.intn(10)
 		var pats []string
@@ -694,6 +713,12 @@ func streamLifecycle(g *G) { // C03
 			probe()
 			g.emit("handle %d %s 3 %%- %s", rid, encB(pa), encL([]string{g.pick([]string{"GET", "PUT"})}))
 			probe()
+			// ... removed as a WHOLE (the node stays: it has a child), registered with another method, that method removed by name
+			g.emit("remove %d %s %%-", rid, encB(pa))
+			probe()
+			g.emit("handle %d %s 4 %%- %s", rid, encB(pa), encL([]string{"POST"}))
+			g.emit("remove %d %s %s", rid, encB(pa), encL([]string{"POST"}))
+			probe()
 			rid++
 		}
 	}
@@ -711,6 +736,31 @@ func streamAllow(g *G) { // C04
 		g.serveLine("serve", rid, "OPTIONS", "*", "", nil)
 		g.emit("routes %d", rid)
 		rid++
+		if g.chance(0.4) {
+			// method sets reached in different ORDERS, on one router and on two: a set grown by one method from a smaller set
+			// (router-wide set after each registration), shrunk by a Remove, grown again by another method; afterwards a node
+			// gets one of these sets directly. What Routes()/Methods() list and what Allow says come from one table entry.
+			ms := []string{"PATCH", "POST", "PUT", "DELETE", "CONNECT"}
+			g.r.Shuffle(len(ms), func(i, j int) { ms[i], ms[j] = ms[j], ms[i] })
+			a, b := rid, rid+1
+			rid += 2
+			g.routerLine(a, routerOpt{name: "ord"})
+			g.routerLine(b, routerOpt{name: "ord2"})
+			g.emit("handle %d /a 1 %%- %s", a, encL([]string{ms[0]}))
+			g.emit("handle %d /b 2 %%- %s", a, encL([]string{ms[1]}))
+			g.emit("remove %d /b %%-", a)
+			g.emit("handle %d /c 3 %%- %s", a, encL([]string{ms[2]}))
+			g.emit("handle %d /a 1 %%- %s", b, encL([]string{ms[0]}))
+			g.emit("handle %d /b 2 %%- %s", b, encL([]string{ms[2]}))
+			g.emit("handle %d /d 4 %%- %s", a, encL([]string{ms[0], ms[1]}))
+			g.emit("handle %d /d 4 %%- %s", b, encL([]string{ms[0], ms[1]}))
+			for _, r := range []int{a, b} {
+				g.emit("routes %d", r)
+				g.serveLine("serve", r, "OPTIONS", "/d", "", nil)
+				g.serveLine("serve", r, "LINK", "/d", "", nil)
+				g.serveLine("serve", r, "OPTIONS", "*", "", nil)
+			}
+		}
 		if g.chance(0.4) {
 			// method sets are shared between nodes and routers through a process-wide table: a router with CORS answers
 			// preflights from that table (sets with TRACE through WithTrace, with CONNECT through the whole AnyMethods list);
@@ -1084,6 +1134,40 @@ func (g *G) reviveFamily(rid int) {
 	}
 }
 
+// upperHalfFamily: two routes share a parameter and the start of its suffix (the node is split: `{id}/`), then the UPPER
+// HALF itself becomes a route; the longer routes are removed, so it is the only route; every name-only / '-' variant of it is
+// rejected, and nothing changes.
+func (g *G) upperHalfFamily(rid int) {
+	g.routerLine(rid, routerOpt{name: "up" + strconv.Itoa(rid), icpt: icptTable})
+	rule := g.pick([]string{"", ":\\d+", ":digit"})
+	pre := g.pick([]string{"/a/", "/"})
+	mk := func(name, tail string) string { return pre + "{" + name + rule + "}" + tail }
+	up := mk("id", "/")
+	h := 1
+	for _, t := range []string{"/x", "/y"} {
+		g.emit("handle %d %s %d %%- %s", rid, encB(mk("id", t)), h, encL([]string{"GET"}))
+		h++
+	}
+	g.emit("handle %d %s %d %%- %s", rid, encB(up), h, encL([]string{"GET"}))
+	h++
+	probe := func() {
+		g.emit("routes %d", rid)
+		for _, m := range []string{"GET", "POST", "OPTIONS"} {
+			g.serveLine("serve", rid, m, g.instantiate(up, []string{"5"}), "", nil)
+		}
+	}
+	if g.chance(0.7) {
+		g.emit("remove %d %s %%-", rid, encB(mk("id", "/x")))
+		g.emit("remove %d %s %%-", rid, encB(mk("id", "/y")))
+	}
+	probe()
+	for _, v := range []string{mk("uid", "/"), mk("-id", "/"), mk("i", "/")} {
+		g.emit("handle %d %s %d %%- %s", rid, encB(v), h, encL([]string{g.pick([]string{"GET", "POST"})}))
+		h++
+		probe()
+	}
+}
+
 func streamReject(g *G) { // C17
 	rid := 1
 	for !g.full() {
@@ -1101,6 +1185,10 @@ func streamReject(g *G) { // C17
 		}
 		if g.chance(0.3) {
 			g.reviveFamily(rid)
+			rid++
+		}
+		if g.chance(0.3) {
+			g.upperHalfFamily(rid)
 			rid++
 		}
 		if g.chance(0.4) {
@@ -2304,6 +2392,8 @@ func streamFacade(g *G) { // C19: the same program through façades (router A) a
 				sub := g.pick([]string{"/x", "/{id}", "", "/{id:\\d+}/e"})
 				if f.resource {
 					sub = ""
+				} else if strings.LastIndex(f.pattern, "{") > strings.LastIndex(f.pattern, "}") && g.chance(0.7) {
+					sub = g.pick([]string{"d}/profile", "}/p", "x}"}) // closes the open token: no '{' in the sub-pattern itself
 				}
 				ps := g.paramsFor(f.pattern + sub)
 				if g.chance(0.25) {
